@@ -92,15 +92,31 @@ def check_case(case, seed, n_eager):
     inputs = [tuple(jaxir.to_input(v) for v in val) for val in vals]
     rng = random.Random(seed * 1000003 + case["id"])
     fails, machinery = [], []
-    stats = dict(calls=0, nochange=0, unknown=0, nontrivial=[], precise=0, taggings=0)
+    stats = dict(calls=0, nochange=0, unknown=0, nontrivial=[], precise=0, taggings=0, skipped_call=0)
     T = list(range(2 ** k))
     srcs = [jaxir.out_source(prog, j) for j in range(nout)]
 
     # ordinary evaluation (eager, one valuation): must agree with TLC, else the builder is wrong
+    has_call = "call" in jaxir.ops_of(prog)
+
+    def ordinary_bad(n, o, how):
+        """Ordinary evaluation disagrees with TLC.  If the program contains genjax's initial-style primitive (`call`) and the
+        same program with the wrapped function applied directly agrees with TLC, the primitive itself is broken -- that is
+        C36's clause, not C09's: the program is skipped (counted).  Otherwise the builder / spec is wrong (exit 2)."""
+        if has_call:
+            fi = jaxir.build(prog, kc, inline_calls=True)
+            if [jaxir.project(x) for x in fi(*inputs[n])] == ev[n]:
+                stats["skipped_call"] = 1
+                return
+        machinery.append(f"builder/spec disagreement on {how} ordinary evaluation: {jaxir.show(prog)} val={vals[n]} jax={o} tlc={ev[n]}")
+
     n0 = rng.randrange(len(inputs))
-    o = [jaxir.project(x) for x in f(*inputs[n0])]
+    try:
+        o = [jaxir.project(x) for x in f(*inputs[n0])]
+    except Exception as e:  # noqa: BLE001
+        o = "raised:" + repr(e)[:200]
     if o != ev[n0]:
-        machinery.append(f"builder/spec disagreement on eager ordinary evaluation: {jaxir.show(prog)} val={vals[n0]} jax={o} tlc={ev[n0]}")
+        ordinary_bad(n0, o, "eager")
         return dict(fails=[], machinery=machinery, stats=stats)
 
     ordinary = {}
@@ -141,8 +157,7 @@ def check_case(case, seed, n_eager):
             if ordn is not None:
                 ordinary[n] = [jaxir.project(x) for x in ordn]
                 if ordinary[n] != ev[n]:
-                    machinery.append(f"builder/spec disagreement on ordinary evaluation: {jaxir.show(prog)} val={vals[n]} "
-                                     f"jax={ordinary[n]} tlc={ev[n]}")
+                    ordinary_bad(n, ordinary[n], "jit")
                     return
             for t, out in zip(label_ts, outs):
                 ob = _observe(out)
@@ -224,12 +239,11 @@ def run(prop_id, tier, seed, replay=None):
                                          "valuations (exhaustive); SpecRand: sampled")
     n_eager = 2 if tier == "quick" else 8
     jobs = [(b, seed, n_eager) for b in balance(cases, vlib.NCPU * 3)]
-    ctx = mp.get_context("spawn")
-    with ctx.Pool(vlib.NCPU) as pool:
+    with vlib.pinned_pool() as pool:
         results = pool.map(_work, jobs, chunksize=1)
     by_id = {c["id"]: c for c in cases}
     machinery = []
-    tot = dict(calls=0, nochange=0, unknown=0, precise=0, taggings=0)
+    tot = dict(calls=0, nochange=0, unknown=0, precise=0, taggings=0, skipped_call=0)
     opsseen, per_sig = {}, {}
     for chunk in results:
         for cid, r in chunk:
@@ -261,6 +275,7 @@ def run(prop_id, tier, seed, replay=None):
     rep.extra.update(programs=len(cases), taggings=tot["taggings"], ops_covered=opsseen,
                      impl_nochange_leaves=tot["nochange"], impl_unknown_leaves=tot["unknown"],
                      taggings_where_impl_equals_reference_rule=tot["precise"],
+                     programs_skipped_because_initial_style_primitive_misevaluates=tot["skipped_call"],
                      violations_by_kind={"/".join(map(str, k)): v for k, v in per_sig.items()})
     rep.assumptions = ["values are integers mod 3; the vector input ranges over 3 fixed vectors, scalars over 0..2",
                        "EvalProg (JaxIR.tla) is the oracle; the IR->JAX builder is validated against it on ordinary evaluation in every run",
